@@ -142,6 +142,8 @@ func C03_Iterate() {
 var lemmaOps = []byte{parser.OpTrue, parser.OpPop, parser.OpReturn, parser.OpJump, parser.OpJumpFalsy, parser.OpAndJump, parser.OpOrJump, parser.OpGetLocal,
 	parser.OpBinaryOp, parser.OpConstant, parser.OpCall}
 
+var lemmaOpsCore = []byte{parser.OpPop, parser.OpReturn, parser.OpJump, parser.OpJumpFalsy, parser.OpOrJump}
+
 type linstr struct {
 	op      byte
 	operand int
@@ -154,15 +156,21 @@ type linstr struct {
 // instructions was removed, jumps were re-targeted to the images of their
 // old targets, the source map follows, and a return is appended when needed.
 func C03_Lemma() {
-	k := 2 + vf.Choice("k", 2) // 2..3 instructions
+	k := 2 + vf.Choice("k", 3) // 2..4 instructions
 	if Tier() > 0 {
 		k = 2 + vf.Choice("k5", 4) // 2..5
+	}
+	// quick tier: streams of 4 instructions use the control-flow core of the
+	// alphabet only (one filler, both returns, the four jumps)
+	ops := lemmaOps
+	if Tier() == 0 && k == 4 {
+		ops = lemmaOpsCore
 	}
 	var is []linstr
 	var starts []int
 	var insts []byte
 	for j := 0; j < k; j++ {
-		op := lemmaOps[vf.Choice("op", len(lemmaOps))]
+		op := ops[vf.Choice("op", len(ops))]
 		in := linstr{op: op}
 		starts = append(starts, len(insts))
 		switch op {
